@@ -259,6 +259,11 @@ SUBS = {'histories': histories, 'streaming': streaming, 'other_process': other_p
 TIMEOUTS = {'histories': 900, 'streaming': 300, 'other_process': 1200}
 
 
+# sub-spaces re-executed under other interpreter configurations (mc.core.CONFIGS): {configuration: {sub-space: stride}}
+# quick tier: every stride-th planned case, thorough tier: all planned cases
+CONFIG_PASSES = {'x64': {'histories': 10}, 'rbg': {'histories': 10, 'streaming': 8}}
+
+
 def plan(ctx):
   th = ctx.tier == 'thorough'
   depth = 5 if th else 4
